@@ -111,11 +111,15 @@ func vfC16Channel(l vfC16Leader) (syncer.Channel, func(), error) {
 type vfC16Stream struct {
 	ctx   context.Context
 	first *pb.SyncResponse
+	stop  func() // ends a handler that tails the stream for ever
 }
 
 func (s *vfC16Stream) Send(r *pb.SyncResponse) error {
 	if s.first == nil {
 		s.first = r
+		if r.GetCode() == pb.SyncResponse_META && r.GetMeta().GetAof() {
+			go s.stop()
+		}
 		return nil
 	}
 	return errors.New("vf: stream closed")
@@ -178,8 +182,9 @@ func TestVerifC16Cmd(t *testing.T) {
 				continue
 			}
 			sc, syncerWait := vfC16Cmd()
-			sc.setSyncer("vf-addr", syncer.VerifC16Syncer(ch, l.ids, l.serving, l.started), syncerWait)
-			st := &vfC16Stream{ctx: context.Background()}
+			sy, stopInner := syncer.VerifC16Syncer(ch, l.ids, l.serving, l.started)
+			sc.setSyncer("vf-addr", sy, syncerWait)
+			st := &vfC16Stream{ctx: context.Background(), stop: stopInner}
 			err = sc.Sync(&pb.SyncRequest{Node: &pb.Node{RunId: q.rid, Address: "vf-addr"}, Offset: q.off}, st)
 			first := "none"
 			if st.first != nil {
@@ -223,7 +228,8 @@ func TestVerifC16Cmd(t *testing.T) {
 			continue
 		}
 		sc, syncerWait := vfC16Cmd()
-		sc.setSyncer("vf-addr", syncer.VerifC16Syncer(ch, l.ids, true, true), syncerWait)
+		sy, _ := syncer.VerifC16Syncer(ch, l.ids, true, true)
+		sc.setSyncer("vf-addr", sy, syncerWait)
 		lis, err := net.Listen("tcp", "127.0.0.1:0")
 		if err != nil {
 			t.Fatal(err)
